@@ -10,6 +10,7 @@ import JmesVerif.Model.Registry
 import JmesVerif.Model.SerdeWire
 import JmesVerif.Model.Convert
 import JmesVerif.Model.Threads
+import JmesVerif.Model.Cli
 /-!
 Line-protocol driver for the model side of the correspondence streams (DESIGN §4.2).
 `jmdriver <stream>` reads one case per line on stdin and writes one result line per case.
@@ -277,6 +278,29 @@ def streamThreads (fields : List String) : String :=
       "sequential=" ++ " || ".intercalate per
   | _ => "BADCASE"
 
+/-- cli: `<mode>\t<expr hex>\t<flags>\t<input kind>\t<input hex>` → `exit=…\tstdout=<hex>\tstderr=<0|1>` -/
+def streamCli (fields : List String) : String :=
+  match fields with
+  | [mode, eh, flags, ikind, ih] =>
+    let expr := (Enc.unhexStr eh).toList
+    let input : Cli.ReadRes := .ok (Enc.unhexStr ih).toList
+    let bad : Cli.ReadRes := .fail
+    let (e, ef) : Option (List Char) × Option Cli.ReadRes :=
+      if mode == "pos" then (some expr, none)
+      else if mode == "efile" then (none, some (.ok expr))
+      else if mode == "efile-missing" then (none, some bad)
+      else if mode == "both" then (some expr, some (.ok expr))
+      else (none, none)
+    let (fname, stdin) : Option Cli.ReadRes × Cli.ReadRes :=
+      if ikind == "stdin" then (none, input)
+      else if ikind == "stdin-badutf8" then (none, bad)
+      else if ikind == "file" then (some input, .ok [])
+      else (some bad, .ok [])
+    let a : Cli.Args := ⟨e, ef, fname, flags.contains 'u', flags.contains 'a'⟩
+    let o := Cli.run evalFuel a stdin
+    s!"exit={o.exit}\tstdout={Enc.hexStr o.stdout}\tstderr={if o.stderrNonEmpty then 1 else 0}"
+  | _ => "BADCASE"
+
 partial def loop (h : IO.FS.Stream) (out : IO.FS.Stream) (f : List String → String) : IO Unit := do
   let line ← h.getLine
   if line.isEmpty then return ()
@@ -297,5 +321,6 @@ def main (args : List String) : IO UInt32 := do
   | ["serde"] => loop stdin stdout SerdeWire.stream; return 0
   | ["tojm"] => loop stdin stdout streamTojm; return 0
   | ["threads"] => loop stdin stdout streamThreads; return 0
+  | ["cli"] => loop stdin stdout streamCli; return 0
   | ["history"] => loop stdin stdout streamHistory; return 0
   | _ => IO.eprintln "usage: jmdriver <stream>"; return 2
